@@ -120,6 +120,21 @@ CLAIMS['C03'] = (
     'this step alphabet',
     'DESIGN.md §6 C03')
 
+CLAIMS['C13'] = (
+    'exploration',
+    'complete enumeration of the product hash seed range x invocation contexts, each a fresh bfg9000 process, byte comparison of outputs',
+    'A kitchen-sink project using every builtin family (several find_files, libraries in different directories, '
+    'forwarded options, installs, pkg-config with several includes/libs/requires, tests and drivers, submodule, '
+    'options, dict-valued environments) is configured in fresh processes for both backends under the full product '
+    'of PYTHONHASHSEED 0..7 (quick) / 0..63 (thorough) x every valid combination of command form (configure from '
+    'the source or build directory, configure-into from four working directories, 9k) and directory naming '
+    '(absolute, relative, ./x/) x unrelated environment variable; Makefile/build.ninja, compile_commands.json and '
+    '.pc files must be byte-identical, auxiliary files equal as sets. A canary reports how many distinct set '
+    'iteration orders the seed range actually produced.',
+    'the seed range is the bound ("all seeds" cannot be exhausted); an order dependence showing only under an order '
+    'the range did not produce, or only for larger sets than the project builds, is outside it',
+    'DESIGN.md §6 C13')
+
 # --- more claims are appended above this line ---
 NOT_YET = 'check not built yet in this session (see DESIGN.md §10 build order); not claimed until it is'
 NOT_APPLICABLE = {}
